@@ -427,6 +427,13 @@ func (p *Prog) modSetOf(fn *ssa.Function) *ModSet {
 	return m
 }
 
+// InstrMods is the locked entry point for instrMods.
+func (p *Prog) InstrMods(in ssa.Instruction, m *ModSet) {
+	p.modMu.Lock()
+	defer p.modMu.Unlock()
+	p.instrMods(in, m)
+}
+
 func (p *Prog) instrMods(in ssa.Instruction, m *ModSet) {
 	switch x := in.(type) {
 	case *ssa.Store:
@@ -555,7 +562,9 @@ func oblBases(in ssa.Instruction) []string {
 	case *ssa.UnOp:
 		return []string{"exact:neg@" + render(x, 0)}
 	case *ssa.Call:
-		return []string{"safe:call@" + render(x, 0), "fresh-recv@" + render(x, 0)}
+		return []string{"safe:call@" + render(x, 0), "fresh-recv@" + render(x, 0), "frame:append@" + render(x, 0), "frame:copy@" + render(x, 0)}
+	case *ssa.Store:
+		return []string{"frame:store@" + render(x.Addr, 0)}
 	}
 	return nil
 }
